@@ -89,6 +89,64 @@ type gl struct {
 	synthRhs    map[ast.Expr]string
 }
 
+// isAccum: *strings.Builder, *bytes.Buffer, bytes.Buffer -- used as append-only byte accumulators
+// (WriteByte, WriteString, Write, Len, String, Bytes, Reset, Grow); kept as the bytes written so far
+func isAccum(t types.Type) bool {
+	if p, ok := t.(*types.Pointer); ok {
+		t = p.Elem()
+	}
+	n, ok := t.(*types.Named)
+	if !ok || n.Obj().Pkg() == nil {
+		return false
+	}
+	k := n.Obj().Pkg().Path() + "." + n.Obj().Name()
+	return k == "strings.Builder" || k == "bytes.Buffer"
+}
+
+// accumVar: the Lean variable behind an accumulator expression (a local, or a field of a struct-pointer local / receiver)
+func (g *gl) accumVar(e ast.Expr) (string, bool) {
+	tv, ok := g.info.Types[e]
+	if !ok || tv.Type == nil || !isAccum(tv.Type) {
+		return "", false
+	}
+	switch x := e.(type) {
+	case *ast.Ident:
+		return g.lvName(x), true
+	case *ast.SelectorExpr:
+		if id, ok := x.X.(*ast.Ident); ok && g.structLoc[g.objOf(id)] != nil {
+			return id.Name + "_" + x.Sel.Name, true
+		}
+	}
+	return "", false
+}
+
+// accumStmt: a statement-level method call on an accumulator
+func (g *gl) accumStmt(w *wr, c *ast.CallExpr) bool {
+	sel, ok := c.Fun.(*ast.SelectorExpr)
+	if !ok {
+		return false
+	}
+	v, ok := g.accumVar(sel.X)
+	if !ok {
+		return false
+	}
+	switch {
+	case sel.Sel.Name == "WriteByte" && len(c.Args) == 1:
+		w.line(v + " := " + v + " ++ [" + g.expr(c.Args[0]).opnd() + "]")
+	case (sel.Sel.Name == "WriteString" || sel.Sel.Name == "Write") && len(c.Args) == 1:
+		w.line(v + " := " + v + " ++ " + g.expr(c.Args[0]).arg())
+	case sel.Sel.Name == "Reset" && len(c.Args) == 0:
+		w.line(v + " := []")
+	case sel.Sel.Name == "Grow" && len(c.Args) == 1:
+		if !g.nonNegative(c.Args[0]) {
+			g.die(c, "Grow by an amount that may be negative (it panics then)")
+		}
+	default:
+		g.die(c, "accumulator method "+sel.Sel.Name)
+	}
+	return true
+}
+
 // isRecPtr: t is *T for a record type T
 func (g *gl) isRecPtr(t types.Type) bool {
 	p, ok := t.(*types.Pointer)
@@ -252,6 +310,9 @@ func (g *gl) leanType(t types.Type) string {
 		if n, ok := p.Elem().(*types.Named); ok && n.Obj().Pkg() != nil && n.Obj().Pkg().Path() == "bufio" && n.Obj().Name() == "Reader" {
 			return "BufRd"
 		}
+	}
+	if isAccum(t) {
+		return "List UInt8"
 	}
 	switch u := t.Underlying().(type) {
 	case *types.Basic:
@@ -982,6 +1043,17 @@ func (e ex) opnd2() string {
 }
 
 func (g *gl) call(c *ast.CallExpr) ex {
+	if sel, ok := c.Fun.(*ast.SelectorExpr); ok && len(c.Args) == 0 {
+		if v, ok := g.accumVar(sel.X); ok {
+			switch sel.Sel.Name {
+			case "Len":
+				return ex{text: "len " + v}
+			case "String", "Bytes":
+				return atomE(v) // a snapshot: values are immutable here
+			}
+			g.die(c, "accumulator method "+sel.Sel.Name+" in an expression")
+		}
+	}
 	if g.extFuncs != nil {
 		if txt, ok := g.extCall(c); ok {
 			return ex{text: txt}
@@ -1688,6 +1760,26 @@ func (g *gl) stmt(w *wr, s ast.Stmt) {
 				g.die(v, "multi-value :=")
 			}
 			id := v.Lhs[0].(*ast.Ident)
+			if isAccum(g.typeOf(v.Rhs[0])) {
+				// b := &strings.Builder{} / bytes.NewBuffer(nil) / &bytes.Buffer{}: an empty accumulator
+				empty := false
+				switch r := v.Rhs[0].(type) {
+				case *ast.UnaryExpr:
+					if cl, ok := r.X.(*ast.CompositeLit); ok && r.Op == token.AND && len(cl.Elts) == 0 {
+						empty = true
+					}
+				case *ast.CallExpr:
+					if sel, ok := r.Fun.(*ast.SelectorExpr); ok && sel.Sel.Name == "NewBuffer" && len(r.Args) == 1 && isNilIdent(r.Args[0]) {
+						empty = true
+					}
+				}
+				if !empty {
+					g.die(v, "accumulator initialiser")
+				}
+				g.mut[g.objOf(id)] = true
+				w.line("let mut " + g.nameOf(g.objOf(id)) + " : List UInt8 := []")
+				return
+			}
 			if u, ok := v.Rhs[0].(*ast.UnaryExpr); ok && u.Op == token.AND && g.rdKind == "" && g.recT != nil && g.isRecPtr(g.typeOf(u)) {
 				// bed := &BED{N: n}: a record under construction, one variable per field
 				cl, ok := u.X.(*ast.CompositeLit)
@@ -1881,6 +1973,9 @@ func (g *gl) stmt(w *wr, s ast.Stmt) {
 			return
 		}
 	case *ast.ExprStmt:
+		if c, ok := v.X.(*ast.CallExpr); ok && g.accumStmt(w, c) {
+			return
+		}
 		if isPanic(v) {
 			w.line("(none : Option Unit)")
 			return
@@ -3592,11 +3687,25 @@ func (g *gl) mapLiteral(name, rel, placeholder string) {
 			} else {
 				g.die(kv.Key, "map key")
 			}
-			v, ok := g.constant(kv.Value)
-			if !ok {
-				g.die(kv.Value, "non-constant value")
+			var vtext string
+			if vl, ok := kv.Value.(*ast.CompositeLit); ok {
+				var vs []string
+				for _, x := range vl.Elts {
+					c, ok := g.constant(x)
+					if !ok {
+						g.die(x, "non-constant value")
+					}
+					vs = append(vs, c.text)
+				}
+				vtext = "[" + strings.Join(vs, ", ") + "]"
+			} else {
+				v, ok := g.constant(kv.Value)
+				if !ok {
+					g.die(kv.Value, "non-constant value")
+				}
+				vtext = v.text
 			}
-			ents = append(ents, "("+key+", "+v.text+")")
+			ents = append(ents, "("+key+", "+vtext+")")
 		}
 		file := filepath.Base(g.fset.Position(cl.Pos()).Filename)
 		text := fmt.Sprintf("def %s_Found : Bool := true\n/-- map literal `%s` (%s/%s) -/\ndef %s : %s := [%s]\n",
@@ -3651,6 +3760,9 @@ func goLean(repo, out string) {
 	g.function("CanonicalSubsequences", "sequtil", "def CanonicalSubsequences (g_complementBytes : "+B+") (seq : "+B+") (k : Int) (yield : "+BB+" → Bool) : Option ("+BB+") := none")
 	g.function("Translate", "sequtil", "def Translate (g_codonToAmino : List (List UInt8 × UInt8)) (dst : "+B+") (src : "+B+") : Option ("+B+") := none")
 	g.function("TranslateReadingFrames", "sequtil", "def TranslateReadingFrames (g_codonToAmino : List (List UInt8 × UInt8)) (seq : "+B+") : Option ("+BB+") := none")
+	g.mapLiteral("aminoToName", "sequtil", "def g_aminoToName : List (UInt8 × List (List UInt8)) := []")
+	g.function("AminoName", "sequtil", "def AminoName (g_aminoToName : List (UInt8 × List (List UInt8))) (aa : UInt8) : Option (("+B+") × ("+B+")) := none")
+	g.function("ReverseComplementString", "sequtil", "def ReverseComplementString (g_complementBytes : "+B+") (s : "+B+") : Option ("+B+") := none")
 	for _, n := range g.order {
 		w.WriteString(g.funcs[n].text)
 		w.WriteString("\n")
